@@ -247,4 +247,50 @@ def check(ctx: Ctx) -> list[RuleResult]:
         else:
             r5.fail(f"is_phase:{a}/{b}", ip.loc(), f"the {a} and {b} phase tests are not mutually exclusive: one packet could be taken for both phases", [f"{a}: {norm(rets[a])}", f"{b}: {norm(rets[b])}"])
     out.append(r5)
+    # ---- R6 ---------------------------------------------------------------------------
+    # Only an *offer* is broadcast to every device that is waiting to bind; accepts and confirms reach a binding device only when
+    # addressed to it. In dispatcher.process_msg the branch that selects all devices with `_is_binding` must follow from a test that
+    # the 1FC9's phase is the offer (a conjunct of the guarding condition) - else a neighbour's accept/confirm heard in between is
+    # taken for ours and the two ends report success with different packets.
+    r6 = RuleResult("R6", "only offers are broadcast to binding devices", "the `_is_binding` fan-out in process_msg is guarded by phase == offer", min_instances=1)
+    pm = repo.func("ramses_rf.dispatcher.process_msg")
+    offer = ctx.const("ramses_tx.const", "SZ_OFFER") if "SZ_OFFER" in ctx.consts._module_env("ramses_tx.const") else "offer"
+    fan = [n for n in ast.walk(pm.node) if isinstance(n, ast.Assign) and any(isinstance(x, ast.Attribute) and x.attr == "_is_binding" for x in ast.walk(n.value))]
+    if not fan:
+        raise AnalysisError("process_msg: the fan-out to binding devices was not found")
+    for n in fan:
+        r6.instances += 1
+        r6.nontrivial += 1
+        ok = False
+        child: ast.AST = n
+        p2 = getattr(n, "parent", None)
+        while p2 is not None and not isinstance(p2, (ast.FunctionDef, ast.AsyncFunctionDef)):
+            if isinstance(p2, ast.If) and child in p2.body:
+                for atom, holds in _implied(p2.test, True):
+                    if holds and isinstance(atom, ast.Compare) and len(atom.ops) == 1 and isinstance(atom.ops[0], ast.Eq):
+                        sides = [atom.left, atom.comparators[0]]
+                        consts_ = []
+                        for sd in sides:
+                            try:
+                                consts_.append(ctx.consts.eval_in(pm, sd))
+                            except Exception:
+                                consts_.append(None)
+                        if any(c == offer for c in consts_) and any("payload" in norm(sd) and "PHASE" in norm(sd).upper() for sd in sides):
+                            ok = True
+            child, p2 = p2, getattr(p2, "parent", None)
+        if ok:
+            r6.ok({"fan_out": norm(n)[:70], "guard": "msg.payload[phase] == offer"})
+        else:
+            r6.fail(f"{pm.short}:binding-fan-out-not-offer-only", pm.loc(n), "process_msg hands a 1FC9 to every device that is binding without requiring it to be an *offer*: an accept/confirm of an unrelated handshake is delivered to (and taken by) a device waiting for its own")
+    out.append(r6)
     return out
+
+
+def _implied(t: ast.expr, edge: bool) -> "list[tuple[ast.expr, bool]]":
+    if isinstance(t, ast.UnaryOp) and isinstance(t.op, ast.Not):
+        return _implied(t.operand, not edge)
+    if isinstance(t, ast.BoolOp):
+        if (isinstance(t.op, ast.And) and edge) or (isinstance(t.op, ast.Or) and not edge):
+            return [x for v in t.values for x in _implied(v, edge)]
+        return []
+    return [(t, edge)]
